@@ -292,6 +292,7 @@ func (d *vLDec) UnmarshalJSON(b []byte) error {
 	}
 	return json.Unmarshal(raw[4], &d.Src)
 }
+
 type vLExp struct {
 	F int     `json:"f"`
 	M int     `json:"m"`
@@ -352,7 +353,7 @@ func vNewPair(cfg vLCfg, conc *vConc) vCodecPair {
 
 type vLStats struct {
 	cases, merged2, merged3, wide int
-	flags                   [64]int
+	flags                         [64]int
 }
 
 // vLayoutCase runs one (frame, configuration, concretisation). kind: "" ok, "violation"
@@ -811,8 +812,10 @@ type vDIn struct {
 }
 
 const (
-	vBig  = 1 << 24
-	vHuge = 1<<32 - 1
+	vBig = 1 << 24
+	// BigVal of CodecDecode.tla: the claim value a data token carries for the 2^24 class
+	vBigAbstract = 100000
+	vHuge        = 1<<32 - 1
 	// allocation bound of the property as checked here: alloc <= vAllocC*len(input) + vAllocK
 	vAllocC = 64
 	vAllocK = 256 << 10
@@ -1171,25 +1174,26 @@ func TestVerifCodecDecode(t *testing.T) {
 		}
 		ins = append(ins, in)
 	}
-	hasClass := func(in vDIn, c string) bool {
+	// inputs that carry the 2^24 class into the data phase first: they establish, cheaply,
+	// whether this decoder sizes buffers from the wire; if it does, inputs that would make it
+	// allocate more than vDanger are not executed here (TestVerifCodecHuge covers 2^32-1
+	// under a hard limit)
+	reachesBig := func(in vDIn) bool {
 		for _, tk := range in.Toks {
-			if (tk.T == "len" || tk.T == "hlen") && tk.C == c {
+			if tk.T == "data" && tk.V == vBigAbstract {
 				return true
 			}
 		}
 		return false
 	}
-	// inputs with the 2^24 class first: they establish, cheaply, whether this decoder sizes
-	// buffers from the wire; if it does, inputs that would make it allocate more than
-	// vDanger are not executed here (TestVerifCodecHuge covers 2^32-1 under a hard limit)
 	order := make([]int, 0, len(ins))
 	for i := range ins {
-		if hasClass(ins[i], "big") {
+		if reachesBig(ins[i]) {
 			order = append(order, i)
 		}
 	}
 	for i := range ins {
-		if !hasClass(ins[i], "big") {
+		if !reachesBig(ins[i]) {
 			order = append(order, i)
 		}
 	}
@@ -1305,7 +1309,7 @@ func TestVerifCodecDecode(t *testing.T) {
 	out.row(vRow{"summary": true, "inputs": len(ins), "runs": st["runs"], "frames": st["frame"], "errors": st["error"],
 		"panics": st["panic"], "mutants": st["mutants"], "skipped_wire_claim": st["skipped_wire_claim"],
 		"exact_measurements": st["exact_measurements"],
-		"wire_alloc_seen": wireAlloc, "bad": nbad})
+		"wire_alloc_seen":    wireAlloc, "bad": nbad})
 }
 
 // TestVerifCodecHuge runs inputs whose length fields carry 2^32-1 with one-byte samples
